@@ -121,6 +121,9 @@ func (s *scheduler) pick(me *gor) *gor {
 	if len(cands) == 0 {
 		return nil
 	}
+	if SchedNondet && len(cands) > 1 {
+		return cands[EX.choose(len(cands))]
+	}
 	return cands[0]
 }
 
